@@ -101,6 +101,9 @@ def export_to_yaml(statechart: Statechart, filepath: str = None) -> str:
     output = StringIO()
 
     yml = yaml.YAML(typ='safe', pure=True)
+    # Always use the block style: in flow style, long lines are folded and a key such as
+    # "on exit" can be split over two lines, resulting in a document that cannot be parsed
+    yml.default_flow_style = False
     yml.dump(export_to_dict(statechart), output)
 
     if filepath:
